@@ -3,7 +3,7 @@ CONSTANTS
   TrackedAlts = {}
   NTMAlts = {0, 1, 2, 3}
   Strict = TRUE
-  Vals = {1, 2}
+  Vals = {1, 7777}
   MaxFuse = 1
   MaxEv = 0
   CallSet <- MCCalls
